@@ -523,7 +523,6 @@ func c06ChainOrder(p *Program, r *Report) {
 	r.Check(a >= 0 && b >= 0 && a < b, "child death precedes the killed gate", lc.OnKilledFn.Pos(), fmt.Sprintf("kill chain order: child-table delete is step %d, killed gate is step %d", a, b))
 }
 
-
 // c06WatchRegisters: "every actor watching it receives exactly one OnKilled" needs every watch request to end up in the table
 // the cleanup step iterates. The table is found from that loop; in each function storing into it, no path reaches an exit
 // without the store except through: the edge on which the requester is the parent (told separately by the cleanup), the
